@@ -9,7 +9,8 @@ for d in sorted(glob.glob("/verif/seeded/*/")):
     low = note.lower()
     missed = "missed at first" in low or "would have been missed" in low or "first caught only" in low or "hung" in low
     tie1 = "alarm only through tie 1" in low or "caught only as a broken correspondence" in low or "reported only as" in low or "reported only through" in low
-    rows.append((name, m.get("property"), ", ".join(m.get("caught_by") or []), "no" if missed else ("tie only" if tie1 else "yes"), note.replace("|", "/")))
+    never = "not caught" in low and not (m.get("caught_by") or [])
+    rows.append((name, m.get("property"), ", ".join(m.get("caught_by") or []) or "—", "NOT CAUGHT" if never else ("no" if missed else ("tie only" if tie1 else "yes")), note.replace("|", "/")))
 print("| seeded change | property | caught by | caught before strengthening | what it took |")
 print("|---|---|---|---|---|")
 for r in rows:
@@ -17,4 +18,4 @@ for r in rows:
 print()
 print("%d changes; %d caught with a concrete failing input by the checks as they were when the change arrived, %d at first only through a "
       "broken tie (a tie-1 bridge, or a model/implementation disagreement without a failing input of the property: no-failing-input-found; a concrete input after strengthening), %d only after strengthening (generators / watchdog / harness)." % (
-    len(rows), sum(1 for r in rows if r[3] == "yes"), sum(1 for r in rows if r[3] == "tie only"), sum(1 for r in rows if r[3] == "no")))
+    len(rows), sum(1 for r in rows if r[3] == "yes"), sum(1 for r in rows if r[3] == "tie only"), sum(1 for r in rows if r[3] == "no")) + (" %d not caught by any check (documented miss)." % sum(1 for r in rows if r[3] == "NOT CAUGHT")))
